@@ -441,6 +441,19 @@ func c04Winner(p *chk.Prog, r *chk.Report) {
 				continue
 			}
 			list, inPlace = l, true
+			// collected into a scratch list that is then stored in the candidate list (`cands = r`)
+			var into []types.Object
+			for _, as := range g.Find(f.IsAssignPat("X", "R", chk.H("R", f.IsObj(l)))) {
+				a := as.Node.(*ast.AssignStmt)
+				if _, isId := ast.Unparen(a.Rhs[0]).(*ast.Ident); isId && a.Pos() > rs.End() {
+					if xo := f.ObjOf(a.Lhs[0]); xo != nil && xo != l {
+						into = append(into, xo)
+					}
+				}
+			}
+			if len(into) == 1 {
+				list = into[0]
+			}
 		}
 	}
 	x.Check("ShouldAnnounce:candidates-are-filtered-speakers", f.Pos(), list != nil, "", "the candidates are not nodesWithActiveSpeakers(speakersForPool(l, name, pool, nodes))")
